@@ -322,7 +322,9 @@ type zipPadStep struct {
 
 func (p *zipPadStep) Live(i int) bool { return p.inner.Live(i) }
 func (p *zipPadStep) Done() bool      { return p.inner.Done() }
-func (p *zipPadStep) Clone() Step     { return &zipPadStep{inner: p.inner.Clone().(*zipStep), consts: p.consts} }
+func (p *zipPadStep) Clone() Step {
+	return &zipPadStep{inner: p.inner.Clone().(*zipStep), consts: p.consts}
+}
 func (p *zipPadStep) On(i int, n src.Notif) ([]string, *Term) {
 	out, t := p.inner.On(i, n)
 	for k, o := range out {
